@@ -9,7 +9,7 @@
 //   b   t=..    f=<binary exact> x= y=              run-time path
 //   cb  t=..    f=..            x= y=               constexpr table
 //   bv  t=..    f=..            xs=[..] ys=[..]     pairwise, run time
-//   s   t=..    f=lerp|midpoint|fma x= y= [z=]      exact against libstdc++/glibc
+//   s   t=..    f=lerp|midpoint|fma x= y= [z=]      `ok` when bit-identical to libstdc++/glibc, else the values
 //   a   t=..    f=<approximating> x= [y=]           `ok` when within the tolerance of libm, else the values
 //   ca  t=..    f=..            x= [y=]             the same through a constexpr table
 //   c   t=..    f=<complex fn>  re= im= [re2= im2=] `ok` when within tolerance of std::complex
@@ -430,11 +430,15 @@ static auto special3(Line const& l) -> std::string
     auto const& f = l.str("f");
     T x = from_bits<T>(arg_bits<T>(l, "x"));
     T y = from_bits<T>(arg_bits<T>(l, "y"));
-    if (f == "midpoint") return fb(etl::midpoint(x, y)) + "\t" + fb(std::midpoint(x, y));
+    auto cmp = [](T e, T s) -> std::string {
+        if ((e != e && s != s) || to_bits(e) == to_bits(s)) return "ok\tok";
+        return "etl=" + fb(e) + ":std=" + fb(s) + "\tok";
+    };
+    if (f == "midpoint") return cmp(etl::midpoint(x, y), std::midpoint(x, y));
     if (!l.has("z")) return "bad-op";
     T z = from_bits<T>(arg_bits<T>(l, "z"));
-    if (f == "lerp") return fb(etl::lerp(x, y, z)) + "\t" + fb(std::lerp(x, y, z));
-    if (f == "fma") return fb(etl::fma(x, y, z)) + "\t" + fb(std::fma(x, y, z));
+    if (f == "lerp") return cmp(etl::lerp(x, y, z), std::lerp(x, y, z));
+    if (f == "fma") return cmp(etl::fma(x, y, z), std::fma(x, y, z));
     return "bad-op";
 }
 
@@ -470,11 +474,7 @@ static auto complex_op(Line const& l) -> std::string
     if (f == "abs") return ok(judge<T>(etl::abs(ez), std::abs(sz), t));
     if (f == "arg") return ok(judge<T>(etl::arg(ez), std::arg(sz), t));
     if (f == "norm") return ok(judge<T>(etl::norm(ez), std::norm(sz), t));
-    if (f == "conj") {
-        auto e = etl::conj(ez);
-        auto s = std::conj(sz);
-        return "(" + fb(e.real()) + "," + fb(e.imag()) + ")\t(" + fb(s.real()) + "," + fb(s.imag()) + ")";
-    }
+    if (f == "conj") return ok(cjudge<T>(etl::conj(ez), std::conj(sz), Tol{0, 0, 0}));
     if (f == "polar") return ok(cjudge<T>(etl::polar(re, im), std::polar(re, im), t));
 #define CX(NAME)                                                                                                       \
     if (f == #NAME) return ok(cjudge<T>(etl::NAME(ez), std::NAME(sz), t));
